@@ -55,7 +55,7 @@ func runC09(c *run.Ctx) {
 	c.Exhaustive = true
 	s := c09Schema()
 	sdl := s.SDL(model.SDLOpts{})
-	kinds := []string{"field-leaf", "field-composite", "inline", "spread", "meta-typename", "meta-schema", "meta-type"}
+	kinds := []string{"field-leaf", "field-composite", "inline", "spread", "meta-typename", "meta-schema", "meta-type", "meta-typename-alone", "dup-leaf-first", "dup-leaf-second"}
 	types := []string{"Query", "A", "B"}
 	total := 0
 	for _, bk := range []string{"iface", "any", "reflect"} {
@@ -132,9 +132,14 @@ func runC09(c *run.Ctx) {
 							case "field-composite":
 								key = "sub"
 								target = &model.Field{Name: "sub", Dirs: dirs, Sels: []model.Sel{&model.Field{Name: "inner"}}}
-							case "meta-typename":
+							case "meta-typename", "meta-typename-alone":
 								key = "__typename"
 								target = &model.Field{Name: "__typename", Dirs: dirs}
+							case "dup-leaf-first", "dup-leaf-second":
+								// the same leaf twice under one response key, once with the directives and once bare: the bare
+								// occurrence is included whatever the directives of the other one say
+								target = &model.Field{Name: "tgt", Dirs: dirs}
+								present = true
 							case "meta-schema":
 								key = "__schema"
 								target = &model.Field{Name: "__schema", Dirs: dirs, Sels: []model.Sel{&model.Field{Name: "queryType", Sels: []model.Sel{&model.Field{Name: "name"}}}}}
@@ -148,6 +153,14 @@ func runC09(c *run.Ctx) {
 								target = &model.Spread{Name: "F", Dirs: dirs}
 							}
 							sels := []model.Sel{&model.Field{Name: "sib"}, target}
+							switch kind {
+							case "meta-typename-alone":
+								sels = []model.Sel{target} // the directive-carrying __typename is the ONLY selection of its set
+							case "dup-leaf-first":
+								sels = []model.Sel{&model.Field{Name: "sib"}, target, &model.Field{Name: "tgt"}}
+							case "dup-leaf-second":
+								sels = []model.Sel{&model.Field{Name: "tgt"}, &model.Field{Name: "sib"}, target}
+							}
 							for d := depth; d > 0; d-- {
 								sels = []model.Sel{&model.Field{Name: "down", Sels: sels}}
 							}
@@ -190,7 +203,7 @@ func runC09(c *run.Ctx) {
 								rep(fmt.Sprintf("truth table: key %q present=%v, expected %v", key, has, present))
 								continue
 							}
-							if _, sibHas := m["sib"]; !sibHas {
+							if _, sibHas := m["sib"]; !sibHas && kind != "meta-typename-alone" {
 								rep("sibling selection lost")
 								continue
 							}
@@ -198,7 +211,7 @@ func runC09(c *run.Ctx) {
 								rep("errors on a valid request")
 								continue
 							}
-							if bk != "reflect" && !strings.HasPrefix(kind, "meta-") {
+							if bk != "reflect" && !strings.HasPrefix(kind, "meta-") && !strings.HasPrefix(kind, "dup-leaf") {
 								called := false
 								for _, cl := range out.Calls {
 									if cl.Key.Field == key && cl.Key.Node == g.Nodes[len(g.Nodes)-1-depth].ID {
@@ -337,8 +350,17 @@ func c09Histories(c *run.Ctx, s *model.Schema, sdl string) int {
 							seq = append(seq, calls...) // then once more in table order: every call also follows every other
 							var trace []string
 							bad := false
+							// every second history hands ggql ONE variable map that the caller keeps and re-uses for all calls
+							keep := n%2 == 0
+							shared := map[string]interface{}{}
 							for _, cl := range seq {
 								vars := map[string]interface{}{}
+								if keep {
+									for k := range shared {
+										delete(shared, k)
+									}
+									vars = shared
+								}
 								truth := func(v int, k vkind, flip bool) bool {
 									if v == 2 {
 										return k.defVal != flip
@@ -353,9 +375,10 @@ func c09Histories(c *run.Ctx, s *model.Schema, sdl string) int {
 									vars["i"] = cl.i == 1
 								}
 								present := !truth(cl.s, sk, flip) && truth(cl.i, ik, flip)
-								out := Do(h, Request{Exe: exe, OpName: cl.op, Vars: vars}, nil)
+								given := fmt.Sprint(vars)
+								out := Do(h, Request{Exe: exe, OpName: cl.op, Vars: vars, KeepVars: keep}, nil)
 								steps++
-								trace = append(trace, fmt.Sprintf("%s%v", cl.op, vars))
+								trace = append(trace, fmt.Sprintf("%s%s", cl.op, given))
 								m, _ := out.Data.(map[string]interface{})
 								_, has := m[key]
 								_, sib := m["sib"]
@@ -371,6 +394,8 @@ func c09Histories(c *run.Ctx, s *model.Schema, sdl string) int {
 									diag = "sibling selection lost"
 								case len(out.ErrPaths) > 0:
 									diag = "errors on a valid request"
+								case keep && fmt.Sprint(vars) != given:
+									diag = "the caller's variable map was changed by the call: " + given + " -> " + fmt.Sprint(vars)
 								}
 								if diag == "" && bk != "reflect" && kind != "meta-typename" {
 									called := false
